@@ -46,7 +46,7 @@ func init() {
 		cfgs := []*HarnessCfg{
 			{Name: "VerifC19_TypeList", Pkg: topoPkg, Solver: "cvc5", TimeoutMs: to},
 			{Name: "VerifC19_MapSim", Pkg: topoPkg, Solver: "cvc5", TimeoutMs: to},
-			{Name: "VerifC19_MapSim", Pkg: topoPkg, Solver: "cvc5", TimeoutMs: to, OneShot: true, Portfolio: []string{"z3-new"}, FPUF: true, Params: map[string]int64{"sym": 1}},
+			{Name: "VerifC19_MapSim", Pkg: topoPkg, Solver: "cvc5", TimeoutMs: to, OneShot: true, Portfolio: []string{"z3-new"}, FPUF: true, Params: map[string]int64{"sym": 1, "keys": 3}},
 			{Name: "VerifC19_Similarity", Pkg: topoPkg, Solver: "cvc5", TimeoutMs: to, OneShot: true, Portfolio: []string{"z3-new"}, FPUF: true, Params: map[string]int64{"sym": 1}, Stubs: map[string]Intrinsic{
 				topoPkg + ".typeListSimilarity": simContractStub(false), topoPkg + ".MapSimilarity": simContractStub(false)}},
 			{Name: "VerifC19_Similarity", Pkg: topoPkg, Solver: "cvc5", TimeoutMs: to, OneShot: true, Stubs: map[string]Intrinsic{
@@ -55,7 +55,7 @@ func init() {
 				topoPkg + ".typeListSimilarity": simContractStub(true), topoPkg + ".MapSimilarity": simContractStub(true)}},
 		}
 		c.Assumptions = append(c.Assumptions,
-			"counters in [0, 2^20]; type lists of length <= 2 over single-byte names; frequency maps over a 2-key universe with counts in [1, 2^20]",
+			"counters in [0, 2^20]; type lists of length <= 2 over single-byte names; frequency maps over a 2-key universe (3 keys for the symmetry harness) with counts in [1, 2^20]",
 			"assume-guarantee: TopologySimilarity is checked with typeListSimilarity and MapSimilarity replaced by their contracts (value in [0,1], symmetric, 1.0 on equal inputs), which the first two harnesses discharge on the real code",
 			"IEEE-754 binary64 semantics, round-to-nearest-even, encoded in the SMT FloatingPoint theory (cvc5)",
 			"that a renamed copy of a function has a field-wise equal topology is a premise (ExtractTopology is not encoded)")
